@@ -85,7 +85,8 @@ pub fn exports(args: &Args, reg: &[TypeEntry], log: &mut Log) {
         std::fs::write(d.join("unrelated.ts"), b"export type Unrelated = 1;\n").unwrap();
         std::fs::write(d.join("keep/notes.txt"), b"notes\n").unwrap();
         std::fs::write(root.join("outside.txt"), b"outside\n").unwrap();
-        let before = files_only(&snapshot(&root));
+        let before_full = snapshot(&root);
+        let before = files_only(&before_full);
         // every third root: one of its dependencies was exported alone earlier in the same process (into the same directory)
         let mut pre_exported: Option<String> = None;
         if k % 3 == 1 {
@@ -113,7 +114,10 @@ pub fn exports(args: &Args, reg: &[TypeEntry], log: &mut Log) {
             let p = std::path::PathBuf::from(&spelling);
             guarded(|| (e.export_all_to)(&p))
         };
-        let after = files_only(&snapshot(&root));
+        let after_full = snapshot(&root);
+        // directories that exist now, hold nothing, and were not there before
+        let stray_dirs: Vec<String> = after_full.keys().filter(|k| k.ends_with('/') && !before_full.contains_key(*k)).cloned().collect();
+        let after = files_only(&after_full);
         let mut files = BTreeMap::new();
         let mut untouched_ok = true;
         let mut removed = vec![];
@@ -158,7 +162,7 @@ pub fn exports(args: &Args, reg: &[TypeEntry], log: &mut Log) {
             "ev": "root", "monitor": "exports", "id": e.id, "rust": e.rust, "esm": esm,
             "dir_spelling": spelling, "dname": dname, "via_default_dir": use_env, "pre_exported": pre_exported,
             "result": result_json,
-            "files": files, "untouched_ok": untouched_ok, "removed": removed,
+            "files": files, "untouched_ok": untouched_ok, "removed": removed, "stray_dirs": stray_dirs,
             "collected": collected, "dependencies": deps, "decl_free": decl_free, "decl": decl_text,
             "ident": ident, "output_path": output_path, "default_output_path": default_output_path,
         }));
